@@ -288,7 +288,7 @@ def no_trunc():
     return SVDParameters(max_bond_dim=float("inf"), rel_tol=float("-inf"), total_tol=float("-inf"))
 
 
-def make_evolution(kind, ttns, ham, ttno, dt, T, ops, mode=None, svd=None, bug_kwargs=None):
+def make_evolution(kind, ttns, ham, ttno, dt, T, ops, mode=None, svd=None, bug_kwargs=None, builder=False):
     """Construct one of the concrete TTN evolution classes on (ttns, ttno)."""
     from pytreenet.time_evolution.tdvp_algorithms import (FirstOrderOneSiteTDVP, SecondOrderOneSiteTDVP,
                                                           SecondOrderTwoSiteTDVP)
@@ -298,6 +298,13 @@ def make_evolution(kind, ttns, ham, ttno, dt, T, ops, mode=None, svd=None, bug_k
     from pytreenet.time_evolution.time_evolution import TimeEvoMode
     from pytreenet.time_evolution.tebd import TEBD
     from pytreenet.time_evolution.trotter import TrotterSplitting, TrotterStep
+    if builder and kind in ("tdvp1", "tdvp2", "tdvp2s"):
+        # the documented builder function with its default time-evolution configuration
+        import importlib
+        tdvp_builder = importlib.import_module("pytreenet.time_evolution.tdvp")  # (the attribute of that name is the function)
+        cfg = tdvp_builder.TDVPConfig(order=1 if kind == "tdvp1" else 2, sites=2 if kind == "tdvp2s" else 1,
+                                      svd_params=svd or no_trunc())
+        return tdvp_builder.tdvp(ttns, ttno, dt, T, ops, cfg)
     mode = mode or TimeEvoMode.EXPM
     svd = svd or no_trunc()
     if kind == "tdvp1":
